@@ -160,6 +160,9 @@ class Analyzer:
         self._csize = {}
         self.record = False
         self.trace = False
+        self.probe_spec = []
+        self.rule_c06a = False
+        self.soft_widen_on = bool(os.environ.get("SOFT_WIDEN"))
 
     # ------------------------------------------------------------ value helpers
     def default_value(self, st, ty, loc, hint="v"):
@@ -651,7 +654,7 @@ class Analyzer:
                     return x.C.bounds(v.e) if isinstance(v, Int) else None
                 print("HEAD", bb, k[1], "visit", visits[k], "old", bnd(old), "new", bnd(s))
             self.thresholds = thr
-            self.soft_widen = bool(os.environ.get("SOFT_WIDEN")) and visits[k] <= 12
+            self.soft_widen = self.soft_widen_on and visits[k] <= 12
             new = self.join(old, s, fr, widen_=(bb in heads and visits[k] > 3), head_first=(bb in heads and visits[k] == 1))
             if self.state_leq(new, old) and self.state_leq(old, new):
                 return
@@ -1233,10 +1236,18 @@ class Analyzer:
             raise Unmodelled("indirect call")
         path = callee.get("resolved") or callee["path"]
         results = None
-        if os.environ.get("PROBE_CALLEE") and path == os.environ["PROBE_CALLEE"] and f["key"] == os.environ.get("PROBE_IN") and self.record:
-            PROBES.append(dict(site=site, kind="call", args=args, C=st.C.copy(), mem={k: v for k, v in st.mem.items() if isinstance(v, (Int, Enum))}, fr=fr))
+        if self.record and self.probe_spec:
+            for (pc, pin) in self.probe_spec:
+                if (path == pc or path.endswith(pc)) and (pin is None or f["key"] == pin or f["key"].split("@")[0] == pin):
+                    lens = {}
+                    for ai, a_ in enumerate(args):
+                        try:
+                            if isinstance(a_, (Ref, Slice)): lens[ai] = self.seq_len(st, a_)
+                        except Exception: pass
+                    PROBES.append(dict(site=site, kind="call", callee=path, fn=f["key"], args=args, lens=lens, C=st.C.copy(), at=t.get("at"),
+                                       mem={k: v for k, v in st.mem.items() if isinstance(v, (Int, Enum))}, fr=fr, bb=bb))
         # rule hook C06.a: the offset handed to SuffixDict::insert must equal the current output length
-        if path == "compress::SuffixDict::insert" and f["key"] == "compress::Compress::copy_compressed_name_with_base_offset" and os.environ.get("RULE_C06A"):
+        if path == "compress::SuffixDict::insert" and f["key"] == "compress::Compress::copy_compressed_name_with_base_offset" and self.rule_c06a:
             outlen = self.seq_len(st, st.mem[f"{fr}._2"]) if isinstance(st.mem.get(f"{fr}._2"), Ref) else None
             if outlen is not None and isinstance(args[2], Int):
                 self.oblige(st, [eq(args[2].e, outlen)], site, "C06.a dict-offset == len(output)", f"{args[2].e} == {outlen}")
